@@ -1,6 +1,9 @@
 package main
 
 import (
+	"os"
+	"os/exec"
+	"strings"
 	"bytes"
 	"fmt"
 	"runtime"
@@ -17,10 +20,17 @@ func init() {
 		out := NewOutput()
 		rng := NewRng(seedFromEnv(), "c10")
 		// ---- static facts: what the read API and the Lint*Ex entry points can write and which lock operations they use
-		_, extra, err := computeFacts()
+		facts, extra, err := computeFacts()
 		if err != nil {
 			return err
 		}
+		var lintWrites []string
+		for _, f := range facts {
+			for _, w := range f.GlobalWrites {
+				lintWrites = append(lintWrites, f.Name+" "+w)
+			}
+		}
+		out.Data["lint_global_writes"] = lintWrites
 		out.Data["entry_global_writes"] = extra["entry_global_writes"]
 		out.Data["lock_ops"] = extra["lock_ops"]
 		out.Data["entry_functions"] = extra["entry_functions"]
@@ -181,9 +191,111 @@ func init() {
 			}
 			runtime.GOMAXPROCS(prev)
 		}
+		// cold start: in a fresh process the very first lint calls are concurrent (lazily initialised shared state is only
+		// vulnerable before the first call completes); each trial is a new process compared with a sequential cold process
+		trials := 30
+		if tier() == "thorough" {
+			trials = 120
+		}
+		self, _ := os.Executable()
+		ref, err := exec.Command(self, "c10cold", "seq").Output()
+		if err == nil {
+			for t := 0; t < trials; t++ {
+				got, err := exec.Command(self, "c10cold", "par").Output()
+				if err != nil {
+					out.Violate("C10|cold-start-crash", "a cold process whose first lint calls are concurrent crashed: "+err.Error(), nil, nil, nil)
+					break
+				}
+				if string(got) != string(ref) {
+					out.Violate("C10|cold-start-differs", "in a fresh process whose first lint calls run concurrently, results differ from a sequential cold process: "+firstDiffLine(string(ref), string(got)),
+						map[string]interface{}{"how": "harness c10cold par  vs  harness c10cold seq", "trial": t}, nil, nil)
+					break
+				}
+			}
+			out.Stats["cold_start_trials"] = trials
+		}
 		out.Stats["concurrent_lint_calls"] = total
 		out.Stats["registries"] = len(regs)
 		out.Sample(map[string]interface{}{"goroutines": gs, "gomaxprocs": procs, "objects": len(certs), "readers": 3})
 		return out.Emit()
 	}
+}
+
+func firstDiffLine(a, b string) string {
+	la, lb := strings.Split(a, "\n"), strings.Split(b, "\n")
+	for i := range la {
+		if i >= len(lb) || la[i] != lb[i] {
+			x := ""
+			if i < len(lb) {
+				x = lb[i]
+			}
+			return "sequential: " + la[i] + " | concurrent: " + x
+		}
+	}
+	return "(length differs)"
+}
+
+// c10cold: lint a fixed set of objects as the very first lint calls of the process, sequentially or concurrently, and print
+// the results in a canonical order
+func init() {
+	commands["c10cold"] = func(args []string) error {
+		par := len(args) > 0 && args[0] == "par"
+		corpus := loadCorpus()
+		// objects that reach every lazily-initialisable table: reserved IPs, TLDs, onion names, policies ...
+		var sel []CorpusCert
+		for _, cc := range corpus.Certs {
+			n := strings.ToLower(cc.File)
+			if strings.Contains(n, "ip") || strings.Contains(n, "onion") || strings.Contains(n, "tld") || strings.Contains(n, "reserved") || strings.Contains(n, "arpa") || len(sel) < 12 {
+				sel = append(sel, cc)
+			}
+			if len(sel) >= 48 {
+				break
+			}
+		}
+		// several copies of every object, so that many goroutines reach the same tables in the same instant
+		base := sel
+		for k := 0; k < 7; k++ {
+			sel = append(sel, base...)
+		}
+		res := make([]string, len(sel))
+		if par {
+			var wg sync.WaitGroup
+			start := make(chan struct{})
+			for i := range sel {
+				wg.Add(1)
+				go func(i int) {
+					defer wg.Done()
+					c, err := x509.ParseCertificate(sel[i].DER)
+					if err != nil {
+						return
+					}
+					<-start
+					res[i] = fmt.Sprint(sel[i].File, " ", sortedResults(zlint.LintCertificate(c)))
+				}(i)
+			}
+			close(start)
+			wg.Wait()
+		} else {
+			for i := range sel {
+				c, err := x509.ParseCertificate(sel[i].DER)
+				if err != nil {
+					continue
+				}
+				res[i] = fmt.Sprint(sel[i].File, " ", sortedResults(zlint.LintCertificate(c)))
+			}
+		}
+		fmt.Println(strings.Join(res, "\n"))
+		return nil
+	}
+}
+
+func sortedResults(rs *zlint.ResultSet) []string {
+	var out []string
+	for _, n := range sortedKeys(rs.Results) {
+		r := rs.Results[n]
+		if r.Status != 1 && r.Status != 2 && r.Status != 3 {
+			out = append(out, fmt.Sprintf("%s=%d:%s", n, r.Status, r.Details))
+		}
+	}
+	return out
 }
